@@ -118,8 +118,19 @@ type shape struct {
 
 // freshOfType enumerates the shapes (slice lengths) of an arbitrary value of type t, as frozen values.
 func (e *Engine) freshOfType(s *State, t types.Type, tag string, depth int) []shape {
-	if depth > 6 {
+	return e.freshOfTypeR(s, t, tag, nil)
+}
+
+// RecBound: nesting depth of self-referential record types (e.g. Names.Subdomains) in arbitrary records.
+var RecBound = 1
+
+func (e *Engine) freshOfTypeR(s *State, t types.Type, tag string, stack []types.Type) []shape {
+	depth := len(stack)
+	if depth > 12 {
 		throwf("freshOfType depth at %s", t)
+	}
+	if _, ok := t.(*types.Named); ok {
+		stack = append(append([]types.Type(nil), stack...), t)
 	}
 	one := func(v Value, c *Term) []shape { return []shape{{c, v}} }
 	if isNamed(t, "math/big", "Int") {
@@ -152,7 +163,7 @@ func (e *Engine) freshOfType(s *State, t types.Type, tag string, depth int) []sh
 			return one(v, TTrue)
 		}
 	case *types.Pointer:
-		sub := e.freshOfType(s, u.Elem(), tag, depth+1)
+		sub := e.freshOfTypeR(s, u.Elem(), tag, stack)
 		var out []shape
 		for _, sh := range sub {
 			out = append(out, shape{sh.cond, &FrozenPtr{V: sh.val}})
@@ -166,7 +177,7 @@ func (e *Engine) freshOfType(s *State, t types.Type, tag string, depth int) []sh
 			if len(f.Name()) >= 4 && f.Name()[:4] == "XXX_" {
 				sub = []shape{{TTrue, zeroFrozen(f.Type())}}
 			} else {
-				sub = e.freshOfType(s, f.Type(), tag+"."+f.Name(), depth+1)
+				sub = e.freshOfTypeR(s, f.Type(), tag+"."+f.Name(), stack)
 			}
 			var next []shape
 			for _, a := range acc {
@@ -191,11 +202,28 @@ func (e *Engine) freshOfType(s *State, t types.Type, tag string, depth int) []sh
 		if b, ok := s.W.Ghost["slicebound:"+lastSeg(tag)]; ok {
 			bound = int(b.(*Term).IV.Int64())
 		}
+		// self-referential element type: cut the nesting at RecBound (a stated bound)
+		et := u.Elem()
+		if p, ok := et.Underlying().(*types.Pointer); ok {
+			et = p.Elem()
+		}
+		occ := 0
+		for _, st := range stack {
+			if types.Identical(st, et) {
+				occ++
+			}
+		}
+		if occ >= RecBound {
+			bound = 0
+			e.mu.Lock()
+			e.Bounds["nesting."+shortType(et)] = RecBound
+			e.mu.Unlock()
+		}
 		var out []shape
 		for n := 0; n <= bound; n++ {
 			acc := []shape{{TTrue, &FrozenSlice{Nil: n == 0}}}
 			for i := 0; i < n; i++ {
-				sub := e.freshOfType(s, u.Elem(), fmt.Sprintf("%s[%d]", tag, i), depth+1)
+				sub := e.freshOfTypeR(s, u.Elem(), fmt.Sprintf("%s[%d]", tag, i), stack)
 				var next []shape
 				for _, a := range acc {
 					for _, b := range sub {
